@@ -961,3 +961,66 @@ def err_var(ctx, P, scope, rule="ERR-VAR", tus=None):
                            "`%s = %s(…)` is followed by a test of `%s`: the result just assigned is never examined" % (v, callee(r), m.group(1)))
                     k += 1
     return n
+
+
+def memset_count(ctx, P, scope, rule="MEMSET-COUNT", tus=None):
+    """malloc(n * sizeof(*x)) … memset(x, v, sizeof(*x)): the initialisation covers one element of an n-element array."""
+    ctx.rule(rule, "a memset that initialises a heap array covers the whole allocation: when `x` was allocated with "
+                   "`<count> * sizeof(*x)` in the same function, `memset(x, …, size)` mentions that count (or the same product); "
+                   "`memset(x, 0, sizeof(*x))` zeroes one slot and the cleanup loop then releases uninitialised pointers")
+    n = 0
+    for key in (tus or LIB_TUS):
+        tu = P.tus[key]
+        for fn in tu.funcs.values():
+            if fn.body is None or not scope(key, fn.name):
+                continue
+            alloc = {}
+            for x in walk(fn.body):
+                if x.k == "BinaryOperator" and x.op == "=":
+                    r = strip(x.kids[1])
+                    if r is not None and r.k == "CallExpr" and callee(r) in ALLOCATORS and len(r.kids) >= 2:
+                        sz = " ".join(tu.src(r.kids[-1]).split())
+                        m = re.match(r"(.+?)\s*\*\s*sizeof\(", sz)
+                        if m and m.group(1).strip() not in ("1",):
+                            alloc[" ".join(tu.src(x.kids[0]).split())] = m.group(1).strip().strip("()")
+            if not alloc:
+                continue
+            k = 0
+            for c in calls(fn.body):
+                if callee(c) not in ("memset", "tsk_memset") or len(c.kids) < 4:
+                    continue
+                tgt = " ".join(tu.src(c.kids[1]).split())
+                if tgt not in alloc:
+                    continue
+                sz = " ".join(tu.src(c.kids[3]).split())
+                cnt = alloc[tgt]
+                n += 1
+                ok = cnt in sz or not re.fullmatch(r"sizeof\s*\(.*\)", sz)      # a bare sizeof(...) is ONE element
+                ctx.ob(rule, "%s|%s@%d" % (fn.name, tgt, k), ok, tu.loc(c), "memset covers `%s` elements" % cnt if ok else
+                       "`%s` was allocated with %s elements but `memset(…, %s)` initialises one" % (tgt, cnt, sz))
+                k += 1
+    return n
+
+
+def keep_rows_atomic(ctx, P, rule="KEEP-ROWS-ATOMIC"):
+    ctx.rule(rule, "tsk_<T>_table_keep_rows validates before it compacts: every subset_*column call (which moves rows in place) comes "
+                   "after the last error exit of the function, so a rejected keep mask leaves the table exactly as it was")
+    tu = P.tus["tables"]
+    n = 0
+    for fn in tu.funcs.values():
+        if fn.body is None or not re.fullmatch(r"tsk_\w+_table_keep_rows", fn.name):
+            continue
+        body_src = tu.src(fn.body)
+        errs = [fn.body.b + m_.start() for m_ in re.finditer(r"tsk_trace_error\s*\(", body_src)]     # a macro: located in the text
+        subs = [x for x in walk(fn.body) if x.k == "CallExpr" and (callee(x) or "").startswith("subset_")]
+        if not subs:
+            continue
+        n += 1
+        last_err = max(errs, default=-1)
+        first_sub = min(x.b for x in subs)
+        ok = first_sub > last_err
+        early = [x for x in subs if x.b < last_err]
+        ctx.ob(rule, fn.name, ok, tu.loc(early[0] if early else subs[0]), "all %d compaction calls follow the last error exit" % len(subs) if ok else
+               "%s compacts a column (%s) before its last validation error exit: a rejected call has already moved rows" % (fn.name, callee(early[0])))
+    ctx.ob(rule, "instances", n >= 8, "c/tskit/tables.c", "%d keep_rows functions" % n)
+    return n
